@@ -36,6 +36,8 @@ def catalogue():
         # a section served by a shipped parser module (hardware-diagnostics signature list, 2 signatures)
         "P8": pb.PEL(pb.SRC(), pb.UD(bytes.fromhex("00000002" "20da0020" "00070301" "ab120104" "20da0020" "00080302" "00ff0105"),
                                        sub=1, comp=0xE500)),
+        # a callout whose LAST sub-structure is the PCE identity (a too-small size byte leaves the stream aligned)
+        "P9": pb.PEL(pb.SRC(flags=1, callouts=pb.callouts_subsection([pb.callout(pce=pb.pce_identity())])), pb.UD(bytes(112), comp=0x4321)),
     }
 
 
@@ -74,8 +76,8 @@ HARNESSES = [
      "timeout": {"quick": 90, "thorough": 400}},
     {"fn": "h_corrupt", "cases": CORR_OPT, "quick_cases": [c for c in QUICK_CORR if c in CORR_OPT], "opt": True,
      "timeout": {"quick": 90, "thorough": 400}},
-    {"fn": "h_cli", "cases": ["trunc:P1", "junk", "good:P1", "corrupt:P2", "corrupt:P2:214", "trunc:P5"],
-     "quick_cases": ["trunc:P1", "junk", "corrupt:P2:214", "trunc:P5"], "opt": True, "timeout": {"quick": 90, "thorough": 300}},
+    {"fn": "h_cli", "cases": ["trunc:P1", "junk", "good:P1", "corrupt:P2", "corrupt:P2:214", "corrupt:P9:pe", "trunc:P5"],
+     "quick_cases": ["trunc:P1", "junk", "corrupt:P2:214", "corrupt:P9:pe", "trunc:P5"], "opt": True, "timeout": {"quick": 90, "thorough": 300}},
     {"fn": "h_plugin", "cases": ["count0", "count1", "count2", "count3", "body"], "quick_cases": ["count0", "count3"],
      "timeout": {"quick": 120, "thorough": 400}},
     {"fn": "h_dir", "cases": ["after-good", "before-good"], "timeout": {"quick": 120, "thorough": 400}},
@@ -213,6 +215,10 @@ def h_cli() -> bool:
             for cand in range(len(P) - 40, len(P)):
                 if t == cand:
                     data = P[:cand]
+        elif what == "corrupt" and CASE.endswith(":pe"):
+            off = bytes(P).find(b"PE") + 2
+            v = sym_int("v", 0, 40)            # the PCE identity's size byte, the identity being the last thing in its callout
+            data = mkbytes(P[:off], [v], P[off + 1:])
         elif what == "corrupt" and CASE.endswith(":214"):
             v = sym_int("v", 0, 40)            # the PCE identity's size byte (values below 24 are 'too small')
             data = mkbytes(P[:214], [v], P[215:])
